@@ -109,6 +109,26 @@ func c04Profiles(tier string) []Profile {
 		return ls
 	}
 	conc = append(conc, pm.Profile(fmt.Sprintf("the same alphabet on a memory-only store, histories of length <= %d: a snapshot of a store without a file is just as isolated and just as read-only (Set/Delete through it are refused)", d-1)))
+	// every tree shape under an open snapshot: deleting / overwriting inner nodes
+	// with two subtrees rebuilds paths through nodes the snapshot shares
+	for _, mem := range []bool{false, true} {
+		sh := shapesProfile("snapshots-shapes", 4, 2, harness.Monitors{}, nil)
+		if mem {
+			sh.Name, sh.NoFile = "snapshots-shapes-memory", true
+		}
+		inner := sh.Init
+		sh.Init = func(w *harness.World) {
+			inner(w)
+			if !w.Closed {
+				w.Snapshot(-1)
+			}
+		}
+		rule := shapesRule(4, 2) + "; a snapshot is taken of the initial tree and, at the end of every history, compared through the whole read API with the deep copy of the model taken at its creation (no node the snapshot shares may be changed in place)"
+		if mem {
+			rule += "; memory-only store (Flush and Reopen are then refused / no-ops)"
+		}
+		conc = append(conc, sh.Profile(rule))
+	}
 	return append(conc, p.Profile(fmt.Sprintf("every history of length <= %d interleaving Set/Delete/Evict/Flush/RemoveCollection/SetCollection(existing and new)/Close on the original with Snapshot (of the original and of snapshots, <= %d alive), full reads of a snapshot, an iterator parked inside a visit of a snapshot (which must survive the snapshot's Close and later mutations of the original), FlushRevert of a snapshot, Close of a snapshot and the refused Set/Delete/Flush on a snapshot; at the end every open snapshot is compared, through the whole public read API, with the deep copy of the model taken when it was created, the original with the model, and every write or truncate issued during a snapshot letter is a violation", d, alive)))
 }
 
